@@ -2195,6 +2195,20 @@ func (e *Engine) intrinsic(st *State, f *Frame, x *ssa.Call, fn *ssa.Function, n
 		return Ite(args[0].(*Term), c64(1), c64(0)), true
 	case "verifAssertDecodesLikeRef":
 		return nil, true
+	case "verifAssertNoAlias":
+		// every string / []byte reachable from the message that shares the input's backing object must be
+		// empty (a zero-length alias is unobservable); the witness then has a non-empty aliasing value
+		in := args[1].(SliceV)
+		cond := True()
+		if in.Obj != 0 {
+			var lens []*Term
+			e.collectRefs(st, args[0], in.Obj, map[int]bool{}, &lens)
+			for _, l := range lens {
+				cond = And(cond, Eq(l, c64(0)))
+			}
+		}
+		e.require(st, cond, "assert", e.strConst(st, args[2]), x)
+		return nil, true
 	case "verifAssertCanonical":
 		args = args[1:]
 		fallthrough
